@@ -56,10 +56,11 @@ var cmpToken = map[action]token.Token{
 
 // constOperand returns the value of n if n is a boolean, numeric or string constant, or nil.
 func constOperand(n *node) constant.Value {
+	// The value is the one of the outermost expression, possibly converted to the type of the other operand.
+	v := n.rval
 	for n.kind == parenExpr {
 		n = n.lastChild()
 	}
-	v := n.rval
 	if !v.IsValid() || n.kind == selectorExpr && (v.CanAddr() || n.sym != nil && n.sym.kind != constSym) {
 		// Not a constant, or a package variable with a known initial value.
 		return nil
